@@ -236,4 +236,20 @@ Section BlockBlind.
     - unfold block_can_collapse_through. rewrite <- ct_all_delete. reflexivity.
     - unfold block_output_margins. reflexivity.
   Qed.
+
+  (* ---- determine_content_based_container_width over leaf children (Model/BlockTree.v): absolute items are skipped *)
+  Lemma fold_left_filter_skip {A B} (f : A -> B -> A) (p : B -> bool) l :
+    (forall a x, p x = false -> f a x = a) -> forall a, fold_left f (filter p l) a = fold_left f l a.
+  Proof.
+    intros Hf. induction l as [|x l IH]; intros a; [reflexivity|]. cbn [filter fold_left].
+    destruct (p x) eqn:E; cbn [fold_left]; [apply IH|]. rewrite (Hf a x E). apply IH.
+  Qed.
+
+  Lemma content_based_width_delete (items : list (Item T * (BStyle T * Measure T))) (aw : Avail T) :
+    content_based_width (filter (fun x => negb (position_is_absolute (it_position (fst x)))) items) aw =
+    content_based_width items aw.
+  Proof.
+    unfold content_based_width. apply fold_left_filter_skip.
+    intros a x E. destruct (position_is_absolute (it_position (fst x))); [reflexivity|discriminate].
+  Qed.
 End BlockBlind.
